@@ -7,6 +7,7 @@ A7 cache discipline (it guards C1's duplicate checks).
 from __future__ import annotations
 
 import ast
+import re
 import math
 from typing import Any, Dict, List, Optional, Set, Tuple
 
@@ -464,23 +465,63 @@ def c1(repo: Repo) -> RuleResult:
     # kind checks in the grammar actions
     pm = m.mod("bitproto/parser.py")
     pc = pm.classes["Parser"]
-    for qual, cls, test in (
-        ("p_constant_reference_for_array_capacity", "InvalidArrayCap", "not isinstance(referenced, IntegerConstant)"),
-        ("p_constant_reference_for_calculation", "CalculationExpressionError", "not isinstance(referenced, IntegerConstant)"),
-        ("p_type_reference", "ReferencedNotType", "not isinstance(d, Type)"),
-        ("p_type_reference", "ReferencedTypeNotDefined", "d is None"),
-        ("p_constant_reference", "ReferencedNotConstant", "not isinstance(d, Constant)"),
-        ("p_constant_reference", "ReferencedConstantNotDefined", "d is None"),
-    ):
-        f2 = pc.methods.get(qual)
-        if f2 is None:
-            res.unsure(f"C1: Parser.{qual} vanished")
-            continue
-        rs2 = _raises_of(f2.node, cls)
-        res.inst(part="kind", where=qual, error=cls, raises=len(rs2))
-        ok = any({("" if t else "not ") + src_of(e) for e, t in facts_at(r, f2.node, skip_raise_siblings=True)} == {test} for r in rs2)
-        if not ok:
-            res.bad(Finding("C1", pm.rel, f2.node.lineno, f"Parser.{qual}", "", f"{cls} is not raised exactly under `{test}`", witness={"InvalidArrayCap": 'const S = "x"; message M { byte[S] a = 1 }', "ReferencedNotType": "const C = 1; message M { C a = 1 }"}.get(cls, "a reference of the wrong kind / to nothing"), tag=f"{qual}:{cls}"))
+    # per action: error class -> (subject, condition); the subject is the value the action looks at
+    # (the lookup result / the reduced symbol), the condition is judged on every path of the action
+    LOOKUP = "self._lookup_referenced_member(p[1])"
+    KIND_TABLE = (
+        ("p_constant_reference_for_array_capacity", "InvalidArrayCap", "p[1]", ("notinst", "IntegerConstant")),
+        ("p_constant_reference_for_calculation", "CalculationExpressionError", "p[1]", ("notinst", "IntegerConstant")),
+        ("p_type_reference", "ReferencedNotType", LOOKUP, ("notinst", "Type")),
+        ("p_type_reference", "ReferencedTypeNotDefined", LOOKUP, ("none",)),
+        ("p_constant_reference", "ReferencedNotConstant", LOOKUP, ("notinst", "Constant")),
+        ("p_constant_reference", "ReferencedConstantNotDefined", LOOKUP, ("none",)),
+    )
+    try:
+        from .flows import compiler_flow as _cf0
+        from .grammar import get_grammar as _gg0
+        from .normal import V as _V0
+        from .normal import show as _sh0
+
+        g0_ = _gg0(repo)
+        flow0 = _cf0(repo, "Parser", "parser.py", inline=lambda n_, f_: n_.startswith("_") and n_ != "_lookup_referenced_member")
+        for qual, cls, subject, cond in KIND_TABLE:
+            act0 = g0_.actions.get(qual)
+            if act0 is None:
+                res.unsure(f"C1: Parser.{qual} vanished")
+                continue
+            prm0 = [a.arg for a in act0.node.args.args]
+            n_raise = 0
+            wrong = None
+            for p_ in flow0.run(act0.node, {prm0[0]: _V0("self"), prm0[1]: _V0("p")}):
+                raised = p_.done == "raise" and any(e.kind == "raise" and e.name == cls for e in p_.effects)
+                n_raise += int(raised)
+                isnone = None
+                isinst = None
+                for k_, t_ in p_.guards:
+                    if k_[0] == "isnone" and _sh0(k_[1]) == subject:
+                        isnone = t_
+                    elif k_[0] == "isinstance" and _sh0(k_[1]) == subject and cond[0] == "notinst" and cond[1] in k_[2]:
+                        isinst = t_ if len(k_[2]) == 1 else (True if t_ is False else None) if False else (t_ if len(k_[2]) == 1 else None)
+                    elif k_[0] == "truthy" and _sh0(k_[1]) == subject:
+                        isnone = (not t_) if t_ is False else isnone  # falsy is wider than None: only `not x` as a None test on definitions
+                if cond[0] == "none":
+                    holds = isnone
+                else:
+                    holds = None if isinst is None else ((not isinst) and isnone is not True)
+                    if isnone is True:
+                        holds = False
+                if holds is None:
+                    if raised:
+                        wrong = f"raised under {p_.guard_text()}, which does not decide the condition"
+                    continue
+                if holds != raised:
+                    wrong = ("not raised" if holds else "raised") + f" under {p_.guard_text()}"
+            res.inst(part="kind", where=qual, error=cls, raises=n_raise)
+            test = f"{subject} is None" if cond[0] == "none" else f"not isinstance({subject}, {cond[1]})"
+            if n_raise == 0 or wrong:
+                res.bad(Finding("C1", pm.rel, act0.node.lineno, f"Parser.{qual}", wrong or "", f"{cls} is not raised exactly under `{test}`" + (f" ({wrong})" if wrong else ""), witness={"InvalidArrayCap": 'const S = "x"; message M { byte[S] a = 1 }', "ReferencedNotType": "const C = 1; message M { C a = 1 }"}.get(cls, ""), tag=f"kind:{qual}:{cls}"))
+    except Inconclusive as e:
+        res.unsure(f"C1: kind checks: {e}")
 
     # imports: cycle and duplicates precede parse_child and compare with samefile
     f2 = pc.methods.get("p_import")
@@ -501,23 +542,57 @@ def c1(repo: Repo) -> RuleResult:
             res.bad(Finding("C1", pm.rel, f2.node.lineno, "Parser.p_import", str(seq), "cycle / duplicate import check missing", witness="a.bitproto imports b.bitproto imports a.bitproto", tag="import:checks"))
         elif not (seq.index("CyclicImport") < seq.index("parse_child") and seq.index("DuplicatedImport") < seq.index("parse_child")):
             res.bad(Finding("C1", pm.rel, f2.node.lineno, "Parser.p_import", str(seq), "the import checks run after the child was parsed (a cyclic import recurses until the stack overflows)", witness="a.bitproto imports itself", tag="import:order"))
+        from .exists import exists_at
+
+        pmeths = {k_: v_.node for k_, v_ in pc.methods.items()}
+        # the path that is checked is the one handed to parse_child
+        fp = next((src_of(n.args[0]) for n in ast.walk(f2.node) if isinstance(n, ast.Call) and src_of(n.func) == "self.parse_child" and n.args), "filepath")
         cyc = _raises_of(f2.node, "CyclicImport")
-        if cyc and {("" if t else "not ") + src_of(e) for e, t in facts_at(cyc[0], f2.node, skip_raise_siblings=True)} != {"self._check_parsing_file(filepath)"}:
-            res.bad(Finding("C1", pm.rel, cyc[0].lineno, "Parser.p_import", "", "CyclicImport is not raised exactly when the file is already on the parsing stack", tag="import:cycle-cond"))
+        if cyc:
+            ex = exists_at(cyc[0], f2.node, pmeths)
+            res.inst(part="imports", error="CyclicImport", iff_some=ex)
+            if ex is None:
+                res.unsure("C1: p_import: the condition CyclicImport is raised under is not a recognised search of the parsing stack")
+            elif ex[0] != "self.filepath_stack" or ex[1] not in (f"os.path.samefile({fp}, _v0)", f"os.path.samefile(_v0, {fp})"):
+                res.bad(Finding("C1", pm.rel, cyc[0].lineno, "Parser.p_import", str(ex), "CyclicImport is not raised exactly when the file is already on the parsing stack", tag="import:cycle-cond"))
         dup = _raises_of(f2.node, "DuplicatedImport")
         if dup:
-            conds = {("" if t else "not ") + src_of(e) for e, t in facts_at(dup[0], f2.node, skip_raise_siblings=True)}
-            lp = enclosing(dup[0], ast.For)
-            if conds != {"os.path.samefile(proto.filepath, filepath)"} or lp is None or src_of(lp.iter) != "self.current_proto().protos(recursive=False)":
-                res.bad(Finding("C1", pm.rel, dup[0].lineno, "Parser.p_import", str(sorted(conds)), "DuplicatedImport is not raised exactly when a proto already imported by this file is the same file", tag="import:dup-cond"))
-        cpf = pc.methods.get("_check_parsing_file")
-        if cpf is not None:
-            t = src_of(cpf.node)
-            if "for filepath_ in self.filepath_stack" not in t or "os.path.samefile(filepath, filepath_)" not in t:
-                res.bad(Finding("C1", pm.rel, cpf.node.lineno, "Parser._check_parsing_file", "", "the parsing stack is not compared entry by entry with samefile()", tag="import:check_parsing_file"))
-        dd = _raises_of(f2.node, "DuplicatedDefinition")
-        if not dd or {("" if t else "not ") + src_of(e) for e, t in facts_at(dd[0], f2.node, skip_raise_siblings=True)} != {"name in self.current_proto().members"}:
-            res.bad(Finding("C1", pm.rel, f2.node.lineno, "Parser.p_import", "", "an import (as) name that is already taken is not rejected", witness='message lib {} import lib "lib.bitproto"', tag="import:name-taken"))
+            ex = exists_at(dup[0], f2.node, pmeths)
+            res.inst(part="imports", error="DuplicatedImport", iff_some=ex)
+            if ex is None:
+                res.unsure("C1: p_import: the condition DuplicatedImport is raised under is not a recognised search of the imports of the current proto")
+            elif ex[0] != "self.current_proto().protos(recursive=False)" or ex[1] not in (f"os.path.samefile(_v1.filepath, {fp})", f"os.path.samefile({fp}, _v1.filepath)"):
+                res.bad(Finding("C1", pm.rel, dup[0].lineno, "Parser.p_import", str(ex), "DuplicatedImport is not raised exactly when a proto already imported by this file is the same file", tag="import:dup-cond"))
+        # the name the import is pushed under is rejected exactly when the current proto already has it
+        try:
+            from .flows import compiler_flow as _cf
+            from .grammar import get_grammar as _gg
+            from .normal import V as _V
+            from .normal import show as _sh
+
+            act_ = _gg(repo).actions.get("p_import")
+            flow_ = _cf(repo, "Parser", "parser.py", inline=lambda n_, f_: False, primitives=("push_member", "parse_child"))
+            prm_ = [a.arg for a in act_.node.args.args]
+            bad_ = None
+            n_push = n_dd = 0
+            for p_ in flow_.run(act_.node, {prm_[0]: _V("self"), prm_[1]: _V("p")}):
+                taken = [(k_, t_) for k_, t_ in p_.guards if k_[0] == "contains" and _sh(k_[1]) == "self.current_proto().members"]
+                raised = p_.done == "raise" and any(e.kind == "raise" and e.name == "DuplicatedDefinition" for e in p_.effects)
+                pushes = [e for e in p_.effects if e.kind == "call" and e.name == "push_member"]
+                if raised:
+                    n_dd += 1
+                    if not (taken and taken[-1][1]):
+                        bad_ = "DuplicatedDefinition is raised on a path that did not find the name in the current proto"
+                if pushes:
+                    n_push += 1
+                    nm_ = pushes[0].kw.get("name", pushes[0].args[1] if len(pushes[0].args) > 1 else None)
+                    if not taken or taken[-1][1] or nm_ is None or taken[-1][0][2] != nm_:
+                        bad_ = f"the proto is pushed under `{_sh(nm_) if nm_ is not None else None}` on a path that has not established that this name is free in the current proto"
+            res.inst(part="imports", error="DuplicatedDefinition", raise_paths=n_dd, push_paths=n_push)
+            if bad_ or n_dd == 0 or n_push == 0:
+                res.bad(Finding("C1", pm.rel, f2.node.lineno, "Parser.p_import", bad_ or "", "an import (as) name that is already taken is not rejected" + (f": {bad_}" if bad_ else ""), witness='message lib {} import lib "lib.bitproto"', tag="import:name-taken"))
+        except Inconclusive as e:
+            res.unsure(f"C1: p_import: {e}")
 
     # ---- converse: every raised ParserError subclass is catalogued
     perr = m.cls("ParserError", "errors.py")
@@ -697,6 +772,32 @@ def a7(repo: Repo) -> RuleResult:
                     res.bad(Finding("A7", AST, fi.node.lineno, fi.qual, "@cache", f"unconditionally cached although it reads {r}, which changes while the scope is still being parsed: later members are invisible to the duplicate / size checks", witness="message M { bool a = 1; bool b = 1 } accepted (second field number compared with a stale table)", tag=f"{fi.qual}:cache"))
             elif "cache_if_frozen" in decos:
                 res.inst(part="conditional", where=fi.qual)
+    # a memo table keys by equality and hash: True == 1 == 1.0 and False == 0.  A memoised function
+    # must not tell apart (by identity or by class) arguments its key equates.
+    n_memo = 0
+    for mod in m.mods.values():
+        if not mod.rel.startswith("compiler/bitproto/"):
+            continue
+        for fi in list(mod.funcs.values()) + [f for c in mod.classes.values() for f in c.methods.values()]:
+            if not ({"cache", "lru_cache", "cache_if_frozen", "memoize", "memoized"} & set(fi.decorators)):
+                continue
+            n_memo += 1
+            params = [a.arg for a in fi.node.args.args if a.arg not in ("self", "cls")]
+            res.inst(part="key", where=fi.qual, params=params)
+            for n in ast.walk(fi.node):
+                why = None
+                if isinstance(n, ast.Compare) and len(n.ops) == 1 and isinstance(n.ops[0], (ast.Is, ast.IsNot)) and isinstance(n.left, ast.Name) and n.left.id in params and isinstance(n.comparators[0], ast.Constant) and isinstance(n.comparators[0].value, bool):
+                    why = f"`{src_of(n)}` tells {n.comparators[0].value} from {int(n.comparators[0].value)}"
+                elif isinstance(n, ast.Call) and isinstance(n.func, ast.Name) and n.func.id == "isinstance" and len(n.args) == 2 and isinstance(n.args[0], ast.Name) and n.args[0].id in params and any(isinstance(x, ast.Name) and x.id in ("bool", "int", "float") for x in ast.walk(n.args[1])):
+                    why = f"`{src_of(n)}` tells numbers of different classes apart"
+                elif isinstance(n, ast.Call) and isinstance(n.func, ast.Name) and n.func.id == "type" and len(n.args) == 1 and isinstance(n.args[0], ast.Name) and n.args[0].id in params:
+                    why = f"`{src_of(n)}` looks at the class of the argument"
+                if why:
+                    f = Finding("A7", fi.rel, n.lineno, fi.qual, src_of(n), f"memoised by argument value, but {why}: the memo table equates them (True == 1, False == 0, equal hashes), so whichever is asked first decides the result for the other", witness="const ENABLED = true; const VERSION = 1  ->  #define VERSION true", tag=f"{fi.qual}:key-conflation")
+                    f.part = "key"
+                    res.bad(f)
+                    break
+    res.inst(part="key", memoised_functions=n_memo)
     # the condition itself
     cond = m.func("_ast.py", "cache_if_frozen_condition").node
     rets = [n for n in ast.walk(cond) if isinstance(n, ast.Return) and n.value is not None]
@@ -810,7 +911,9 @@ def a7(repo: Repo) -> RuleResult:
                 # inside the memoised function itself the list is still being built
                 if fi.node.name in memo and fi.cls is not None and fi.cls.rel == AST:
                     continue
-                res.bad(Finding("A7", fi.rel, n.lineno, fi.qual, src_of(n)[:120], f"`{src_of(tgt)[:60]}` is the result of the memoised `{src_of(src_call.func)}` (the cache hands out its own list on a frozen node) and is mutated in place with `{how}`: every later caller with the same arguments - the renderers - sees the changed object", witness="compile a schema with a nested definition once with the linter and once with -q: the emission order differs", tag=f"{fi.qual}:memo-mutation:{tgt.id if isinstance(tgt, ast.Name) else 'call'}"))
+                f_ = Finding("A7", fi.rel, n.lineno, fi.qual, src_of(n)[:120], f"`{src_of(tgt)[:60]}` is the result of the memoised `{src_of(src_call.func)}` (the cache hands out its own list on a frozen node) and is mutated in place with `{how}`: every later caller with the same arguments - the renderers - sees the changed object", witness="compile a schema with a nested definition once with the linter and once with -q: the emission order differs", tag=f"{fi.qual}:memo-mutation:{tgt.id if isinstance(tgt, ast.Name) else 'call'}")
+                f_.part = "memo-results"
+                res.bad(f_)
     res.inst(part="memo-results", memoised=len(memo), bound_sites=n_sites)
     # identity hash only inside safe_hash
     um = m.mod("bitproto/utils.py")
@@ -839,20 +942,96 @@ LINT_CONVENTIONS = {
 }
 
 
-def _lint_predicate_kind(chk: ast.FunctionDef) -> str:
-    txt = src_of(chk)
-    kinds = []
-    if "pascal_case(" in txt and ("!= expect" in txt or "expect !=" in txt or "!= pascal_case(" in txt):
-        kinds.append("pascal")
-    if "snake_case(" in txt and ("!= expect" in txt or "expect !=" in txt or "!= snake_case(" in txt):
-        kinds.append("snake")
-    if "not definition_name.isupper()" in txt or "!= definition_name.upper()" in txt or "definition_name.upper() !=" in txt:
-        kinds.append("upper")
-    if ".value == 0" in txt and "fields()" in txt:
-        kinds.append("has-zero")
-    if "scope_stack" in txt and "* 4" in txt and "indent" in txt:
-        kinds.append("indent")
-    return kinds[0] if len(kinds) == 1 else ("?" if not kinds else "+".join(kinds))
+def _lint_rule_summary(repo: Repo, lm: Any, c: Any, chk: Any) -> Dict[str, Any]:
+    """What a lint rule's check() does, from its paths:
+    {'kind': pascal|snake|upper|has-zero|indent|?, 'defect': why the warning is not
+    returned exactly when the convention is broken (or None), 'paths': n}"""
+    from .exists import exists_of_expr
+    from .fold import by_name, lit_value
+    from .normal import V, show
+    from .pyflow import PyFlow, single_atom
+
+    chk_node = chk.node
+    prm = [a_.arg for a_ in chk_node.args.args]
+    dname = prm[1] if len(prm) > 1 else "definition"
+    nname = prm[2] if len(prm) > 2 else "name"
+    flow = PyFlow(funcs={k: v.node for k, v in lm.funcs.items()}, methods={k: v.node for k, v in c.methods.items()}, havoc_on=(), pure=("pascal_case", "snake_case", "upper_case", "isupper", "upper", "fields"))
+    env = {prm[0]: V("self"), dname: V("definition")}
+    if len(prm) > 2:
+        env[nname] = V("name")
+    paths = [p_ for p_ in flow.run(chk_node, env) if p_.done == "return"]
+
+    def warned(p_: Any) -> bool:
+        a_ = single_atom(p_.ret) if p_.ret is not None else None
+        return a_ is not None and a_[0] != "none"
+
+    out: Dict[str, Any] = {"paths": len(paths), "kind": "?", "defect": None}
+    if not paths or not any(warned(p_) for p_ in paths) or all(warned(p_) for p_ in paths):
+        out["defect"] = "check() does not have both a warning path and a None path"
+    kinds: Set[str] = set()
+    CONV = {"pascal_case": "pascal", "snake_case": "snake", "upper_case": "upper", "upper": "upper"}
+    for p_ in paths:
+        subj = "name"
+        for k_, t_ in p_.guards:
+            if k_[0] == "truthy" and show(k_[1]) == "name":
+                subj = "name" if t_ else "definition.name"
+        holds: Optional[bool] = None
+        for k_, t_ in p_.guards:
+            if k_[0] == "cmp" and k_[1] == "==":
+                d = k_[2]
+                for fnm, kd in CONV.items():
+                    for form in (f"{fnm}({subj})", f"{subj}.{fnm}()"):
+                        if show(d) in (f"{form} - {subj}", f"-{form} + {subj}", f"{subj} - {form}", f"-{subj} + {form}"):
+                            holds, kind_ = t_, kd
+                            kinds.add(kd)
+            elif k_[0] == "truthy" and show(k_[1]) == f"{subj}.isupper()":
+                holds = t_
+                kinds.add("upper")
+        if holds is not None and warned(p_) != (not holds):
+            out["defect"] = f"under {p_.guard_text()} the rule " + ("warns" if warned(p_) else "is silent")
+    # enum has a zero member: silent iff some field has value 0
+    loops_or_any = [n for n in ast.walk(chk_node) if isinstance(n, ast.For) or (isinstance(n, ast.Call) and isinstance(n.func, ast.Name) and n.func.id == "any")]
+    if not kinds and loops_or_any:
+        ex = None
+        for n in ast.walk(chk_node):
+            if isinstance(n, ast.Call) and isinstance(n.func, ast.Name) and n.func.id == "any":
+                ex = exists_of_expr(n)
+                # polarity: the None return is under the any()
+                holder = [i for i in ast.walk(chk_node) if isinstance(i, ast.If) and any(x is n for x in ast.walk(i.test))]
+                if ex and holder and not (len(holder[0].body) == 1 and isinstance(holder[0].body[0], ast.Return) and (holder[0].body[0].value is None or (isinstance(holder[0].body[0].value, ast.Constant) and holder[0].body[0].value.value is None)) and not isinstance(holder[0].test, ast.UnaryOp)):
+                    out["defect"] = "the rule is not silent exactly when some member is 0"
+            elif isinstance(n, ast.For) and len(n.body) == 1 and isinstance(n.body[0], ast.If) and len(n.body[0].body) == 1 and isinstance(n.body[0].body[0], ast.Return):
+                r_ = n.body[0].body[0]
+                from .exists import _canon
+
+                ex = _canon(n.iter, n.target, n.body[0].test)
+                if not (r_.value is None or (isinstance(r_.value, ast.Constant) and r_.value.value is None)):
+                    out["defect"] = "the rule is not silent exactly when some member is 0"
+        if ex is not None and ex[0] == f"{dname}.fields()" and ex[1].replace(" ", "") in ("_v0.value==0", "0==_v0.value"):
+            kinds.add("has-zero")
+            last = chk_node.body[-1]
+            if not (isinstance(last, ast.Return) and isinstance(last.value, ast.Call)):
+                out["defect"] = "without a member 0 the rule does not warn"
+        elif ex is not None:
+            out["search"] = ex
+    # indent: folded over a grid of (indent, nesting depth)
+    if not kinds and any(k_[0] == "cmp" and "definition.indent" in show(k_[2]) for p_ in paths for k_, _ in p_.guards):
+        kinds.add("indent")
+        for ind_ in (-1, 0, 2, 4, 8, 12):
+            for depth in (0, 1, 2, 3, 4):
+                repl = by_name({"definition.indent": ind_}, {"len": depth})
+                live = [p_ for p_ in paths if all(lit_value(k_, t_, repl) is not False for k_, t_ in p_.guards)]
+                undecided = [p_ for p_ in live if any(lit_value(k_, t_, repl) is None for k_, t_ in p_.guards)]
+                expect = 4 * (depth - 1)
+                want = ind_ > 0 and expect >= 0 and ind_ != expect
+                if undecided or len(live) != 1:
+                    out["kind"] = "?"
+                    out["why"] = f"indent={ind_}, depth={depth}: {len(live)} feasible paths, {len(undecided)} undecided"
+                    return out
+                if warned(live[0]) != want:
+                    out["defect"] = f"with indent {ind_} at nesting depth {depth} (expected indent {expect}) the rule " + ("warns" if warned(live[0]) else "is silent")
+    out["kind"] = next(iter(kinds)) if len(kinds) == 1 else ("?" if not kinds else "+".join(sorted(kinds)))
+    return out
 
 
 @rule("C7", "each lint rule tests the style-guide convention of the kind it targets")
@@ -872,42 +1051,29 @@ def c7(repo: Repo) -> RuleResult:
         if tc is None or chk is None:
             continue
         target = next((n.value.id for n in ast.walk(tc.node) if isinstance(n, ast.Return) and isinstance(n.value, ast.Name)), None)
-        kind = _lint_predicate_kind(chk.node)
-        res.inst(rule=c.name, target=target, predicate=kind)
+        try:
+            sm = _lint_rule_summary(repo, lm, c, chk)
+        except Inconclusive as e:
+            res.unsure(f"C7: {c.name}.check: {e}")
+            continue
+        kind = sm["kind"]
+        res.inst(rule=c.name, target=target, predicate=kind, paths=sm["paths"])
         allowed = LINT_CONVENTIONS.get(target or "")
         if allowed is None:
             res.unsure(f"C7: {c.name} targets {target}, for which the style guide table has no convention")
             continue
         if kind == "?" or "+" in kind:
-            res.unsure(f"C7: predicate of {c.name}.check is not an enumerated idiom")
+            res.unsure(f"C7: predicate of {c.name}.check is not an enumerated idiom" + (f" ({sm.get('why') or sm.get('search')})" if sm.get("why") or sm.get("search") else ""))
             continue
         if kind not in allowed:
-            res.bad(Finding("C7", lm.rel, chk.node.lineno, f"{c.name}.check", kind, f"the rule for {target} tests the `{kind}` convention; the style guide asks {allowed} for this kind", witness=f"a conforming {target} name is warned about / a violating one is not", tag=f"{c.name}:{kind}"))
+            res.bad(Finding("C7", lm.rel, chk.node.lineno, f"{c.name}.check", kind, f"the rule for {target} tests the `{kind}` convention; the style guide asks {allowed} for this kind", witness=f"a conforming {target} name is warned about / a violating one passes", tag=f"{c.name}:kind"))
         seen.setdefault(target or "", set()).add(kind)
-        # warn iff predicate true: returns a warning under the predicate, None otherwise
-        rets = [n for n in ast.walk(chk.node) if isinstance(n, ast.Return)]
-        if not any(isinstance(r.value, ast.Constant) and r.value.value is None for r in rets) or not any(isinstance(r.value, ast.Call) for r in rets):
-            res.bad(Finding("C7", lm.rel, chk.node.lineno, f"{c.name}.check", "", "check() does not have both a warning path and a None path", tag=f"{c.name}:paths"))
-        # polarity for the naming idioms: the warning return is under `name != expect` (true)
-        for r in rets:
-            if isinstance(r.value, ast.Call):
-                conds = {("" if t else "not ") + src_of(e) for e, t in facts_at(r, chk.node)}
-                if kind in ("pascal", "snake") and not (conds & {"definition_name != expect", "expect != definition_name"}):
-                    res.bad(Finding("C7", lm.rel, r.lineno, f"{c.name}.check", str(sorted(conds)), "the warning is not returned exactly when the name differs from its converted form", tag=f"{c.name}:polarity"))
-                if kind == "upper" and not (conds & {"not definition_name.isupper()", "definition_name != definition_name.upper()"}):
-                    res.bad(Finding("C7", lm.rel, r.lineno, f"{c.name}.check", str(sorted(conds)), "the warning is not returned exactly when the name is not upper case", tag=f"{c.name}:polarity"))
+        if sm["defect"]:
+            tag = "indent:cond" if kind == "indent" else f"{c.name}:polarity"
+            res.bad(Finding("C7", lm.rel, chk.node.lineno, f"{c.name}.check", sm["defect"], f"the warning is not returned exactly when the {kind} convention is broken: {sm['defect']}", tag=tag))
     for target, need in (("Alias", "pascal"), ("Enum", "pascal"), ("Enum", "has-zero"), ("Message", "pascal"), ("MessageField", "snake"), ("Constant", "upper"), ("EnumField", "upper"), ("BoundDefinition", "indent")):
         if need not in seen.get(target, set()):
             res.bad(Finding("C7", lm.rel, 0, "linter", f"{target}:{need}", f"no lint rule tests the `{need}` convention for {target}", witness=f"a {target} violating it lints clean", tag=f"missing:{target}:{need}"))
-    # indent rule: 4 * depth
-    ind = lm.classes.get("RuleDefinitionIndent")
-    if ind is not None and "check" in ind.methods:
-        t = src_of(ind.methods["check"].node)
-        res.inst(rule="RuleDefinitionIndent", text=short(t, 200))
-        if "(len(definition.scope_stack) - 1) * 4" not in t and "4 * (len(definition.scope_stack) - 1)" not in t:
-            res.bad(Finding("C7", lm.rel, ind.node.lineno, "RuleDefinitionIndent.check", "", "expected indentation is not 4 spaces per nesting level below the file scope", tag="indent:formula"))
-        if "definition.indent != expect" not in t:
-            res.bad(Finding("C7", lm.rel, ind.node.lineno, "RuleDefinitionIndent.check", "", "the warning is not conditioned on indent != expected", tag="indent:cond"))
     return res
 
 
@@ -1206,6 +1372,7 @@ def c5(repo: Repo) -> RuleResult:
     # prefix option flows only through _get_definition_name_prefix; C macros upper-case it via the Constant/EnumField styles
     gp = m.func("renderer/formatter.py", "Formatter._get_definition_name_prefix")
     res.inst(part="common", where=gp.qual)
+    res.inst(part="owner", where=gp.qual, what="the prefix option is read from the proto the definition is bound to")
     recv_src = None
     reads_option = False
     try:
@@ -1220,12 +1387,98 @@ def c5(repo: Repo) -> RuleResult:
         res.unsure(f"C5: {gp.qual}: {e}")
     if recv_src is not None and not recv_src.endswith(".bound"):
         f = Finding("C5", gp.rel, gp.node.lineno, gp.qual, str(recv_src), f"the name prefix is read from `{recv_src}`, not from the proto the definition is bound to: an imported definition is named with another file's prefix in the importing file", witness="two files with different c.name_prefix, one importing the other: the importer refers to struct names the imported header does not declare", tag="prefix:owner")
-        f.part = "common"
+        f.part = "owner"
         res.bad(f)
     if not reads_option:
         f = Finding("C5", gp.rel, gp.node.lineno, gp.qual, "", "the name prefix is not read from the bound proto's prefix option", tag="prefix:source")
         f.part = "common"
         res.bad(f)
+    # an imported definition is qualified with the name the importing file gave the import
+    # (what the generated import statement binds), looked up by identity in the parent scope
+    try:
+        from .pyflow import single_atom as _sa
+
+        flq = compiler_flow(repo, "Formatter", "renderer/formatter.py", inline=lambda n_, f_: False)
+        for qn in ("format_definition_name", "format_name_related_to_definition"):
+            fq = m.func("renderer/formatter.py", f"Formatter.{qn}")
+            nq = 0
+            for p_ in flq.run(fq.node, {"self": V("self"), fq.node.args.args[1].arg: V("d")}):
+                if p_.done != "return" or p_.ret is None:
+                    continue
+                a_ = _sa(p_.ret)
+                if a_ is None or a_[0] != "join":
+                    continue
+                sep, seq = a_[1], _sa(a_[2])
+                if "delimer_cross_proto" not in show(sep) or seq is None or seq[0] != "tuple" or len(seq[1]) != 2:
+                    res.unsure(f"C5: {qn}: cross-file name `{show(p_.ret)}` is not <qualifier><delimiter><name>")
+                    continue
+                nq += 1
+                qa = _sa(seq[1][0])
+                res.inst(part="qualifier", where=f"Formatter.{qn}", qualifier=show(seq[1][0]))
+                if qa is not None and qa[0] == "mcall" and qa[1] == "_get_definition_name":
+                    continue
+                f = Finding("C5", fq.rel, fq.node.lineno, f"Formatter.{qn}", show(seq[1][0]), f"an imported definition is qualified with `{show(seq[1][0])}`, not with the name the import has in the importing file (self._get_definition_name(<imported proto>))", witness='import sd "shared_defs.bitproto" where the file declares `proto shared`: generated Go / Python refers to shared.X while only sd is bound', tag=f"qualifier:{qn}")
+                f.part = "qualifier"
+                res.bad(f)
+            if nq == 0:
+                res.unsure(f"C5: {qn}: no path builds a cross-file name")
+        fq = m.func("renderer/formatter.py", "Formatter._get_definition_name")
+        okq = False
+        badq = None
+        for p_ in flq.run(fq.node, {"self": V("self"), fq.node.args.args[1].arg: V("d")}):
+            if p_.done != "return" or p_.ret is None:
+                continue
+            a_ = _sa(p_.ret)
+            empty_stack = any(k[0] == "cmp" and "len(d.scope_stack)" in show(k[2]) and t for k, t in p_.guards) or any(k[0] == "truthy" and show(k[1]) == "d.scope_stack" and not t for k, t in p_.guards)
+            if a_ is not None and a_[0] == "mcall" and a_[1] == "get_name_by_member" and len(a_[2]) == 2 and show(a_[2][0]) == "d.scope_stack[-1]" and show(a_[2][1]) == "d":
+                okq = True
+            elif show(p_.ret) == "d.name":
+                # the fallback: only without a parent scope or when the parent does not know the member
+                if not empty_stack and not any(k[0] == "truthy" and "get_name_by_member" in show(k[1]) and not t for k, t in p_.guards):
+                    badq = "d.name is returned although the parent scope was not asked"
+            else:
+                badq = f"returns `{show(p_.ret)}`"
+        res.inst(part="qualifier", where="Formatter._get_definition_name", asks_parent=okq)
+        if badq or not okq:
+            f = Finding("C5", fq.rel, fq.node.lineno, "Formatter._get_definition_name", badq or "", "the name of a definition in its parent scope is not looked up with the parent's get_name_by_member(d): " + (badq or "no path asks the parent scope"), witness='import sd "shared_defs.bitproto": the `as` name is ignored', tag="qualifier:_get_definition_name")
+            f.part = "qualifier"
+            res.bad(f)
+    except Inconclusive as e:
+        res.unsure(f"C5: qualifier: {e}")
+    # the names blocks declare things under are the formatter's names of the bound definition
+    # (the ones every reference is spelled with), never the raw schema name
+    BIND = {
+        ("BlockBindAlias", "alias_name"): "self.formatter.format_alias_name(self.d)",
+        ("BlockBindAlias", "aliased_type"): "self.formatter.format_type(self.d.type, name=self.formatter.format_alias_name(self.d))",
+        ("BlockBindConstant", "constant_name"): "self.formatter.format_constant_name(self.d)",
+        ("BlockBindEnum", "enum_name"): "self.formatter.format_enum_name(self.d)",
+        ("BlockBindEnumField", "enum_field_name"): "self.formatter.format_enum_field_name(self.d)",
+        ("BlockBindMessage", "message_name"): "self.formatter.format_message_name(self.d)",
+        ("BlockBindMessageField", "message_field_name"): "self.formatter.format_message_field_name(self.d)",
+        ("BlockBindMessageField", "message_field_type"): "self.formatter.format_type(self.d.type, name=self.formatter.format_message_field_name(self.d))",
+    }
+    for (cn_, pn_), want_ in BIND.items():
+        try:
+            ci_ = m.cls(cn_, "renderer/block.py")
+            fi_ = m.lookup(ci_, pn_)
+            if fi_ is None:
+                res.unsure(f"C5: {cn_}.{pn_} vanished")
+                continue
+            flb = compiler_flow(repo, cn_, "renderer/block.py", inline=lambda n_, f_: n_ != "formatter" and any("property" in src_of(d_) for d_ in f_.decorator_list) or n_.startswith("_") and n_ != "_get_ctx_or_raise", inline_props=True, module_funcs=True)
+            vals_ = sorted({show(p_.ret) for p_ in flb.run(fi_.node, {"self": V("self")}) if p_.done == "return" and p_.ret is not None})
+        except Inconclusive as e:
+            res.unsure(f"C5: {cn_}.{pn_}: {e}")
+            continue
+        res.inst(part="binding", where=f"{cn_}.{pn_}", value=vals_)
+        if vals_ == [want_]:
+            continue
+        raw = [v_ for v_ in vals_ if re.search(r"(self\.d\.name|self\.name)\b", v_)]
+        if raw:
+            f = Finding("C5", fi_.rel, fi_.node.lineno, f"{cn_}.{pn_}", raw[0], f"`{pn_}` is built from the raw schema name (`{raw[0]}`), the rest of the generated code refers to the definition by `{want_}`: with a name prefix / case style / nesting the declaration and its uses disagree", witness="option c.name_prefix = \"Tm\"; type MacAddress = byte[6]: `typedef unsigned char MacAddress[6];` while fields are declared `TmMacAddress`", tag=f"binding:{cn_}.{pn_}")
+            f.part = "binding"
+            res.bad(f)
+        else:
+            res.unsure(f"C5: {cn_}.{pn_} evaluates to {vals_}, expected `{want_}`")
     users = []
     for mod in m.mods.values():
         if "/renderer/" in mod.rel:
